@@ -41,7 +41,19 @@ class BaseFailure(BaseException):
     pass
 
 
-EXC = {"Failure": Failure, "BaseFailure": BaseFailure, "ValueError": ValueError, "KeyboardInterrupt": KeyboardInterrupt,
+class FalsyFailure(Exception):
+    """an exception INSTANCE whose truth value is False (an aggregate error that is empty, say)"""
+
+    def __bool__(self):
+        return False
+
+
+class EmptyGroup(BaseException):
+    def __len__(self):
+        return 0
+
+
+EXC = {"FalsyFailure": FalsyFailure, "EmptyGroup": EmptyGroup, "Failure": Failure, "BaseFailure": BaseFailure, "ValueError": ValueError, "KeyboardInterrupt": KeyboardInterrupt,
        "SystemExit": SystemExit}
 
 
